@@ -90,7 +90,7 @@ fn lvl<C: CompressionLevel>(c: C, l: &str) -> C {
     match l { "fast" => c.fastest(), "bal" => c.balanced(), "best" => c.highest_ratio(), "dflt" | "-" => c, n => c.level(n.parse().unwrap()) }
 }
 
-pub fn compressor(a: &str) -> Box<dyn Compress> {
+pub fn compressor(a: &str) -> Box<dyn Compress + Send + Sync> {
     let (lib, l) = a.split_once(':').unwrap();
     match lib {
         "gzip" => Box::new(lvl(deflate::DeflateComp::gzip(), l)),
@@ -104,7 +104,7 @@ pub fn compressor(a: &str) -> Box<dyn Compress> {
     }
 }
 
-pub fn decompressor(a: &str) -> Box<dyn Decompress> {
+pub fn decompressor(a: &str) -> Box<dyn Decompress + Send + Sync> {
     let lib = a.split(':').next().unwrap();
     match lib {
         "gzip" => Box::new(deflate::DeflateDecomp::gzip()),
@@ -335,4 +335,14 @@ fn one(out: &mut Out, t: &[&str]) {
         "dcp" => { let (imp, mon) = guarded_line(&format!("dcp:{}", t[1]), &unhx(t[2])); out.case(&line, &imp, mon); }
         _ => panic!("bad codec case {line}"),
     }
+}
+
+/// boxed (de)compressors as values the client builders accept
+pub struct DynComp(pub Box<dyn Compress + Send + Sync>);
+impl Compress for DynComp {
+    fn compress(&self, input: Bytes) -> anyhow::Result<Bytes> { self.0.compress(input) }
+}
+pub struct DynDecomp(pub Box<dyn Decompress + Send + Sync>);
+impl Decompress for DynDecomp {
+    fn decompress(&self, input: Bytes) -> anyhow::Result<Bytes> { self.0.decompress(input) }
 }
